@@ -64,7 +64,8 @@ def cases(tier, rng):
             out.append(("(op-len %s)" % g, "accessor"))
             for idx in range(len(pg) - 1): out.append(("(op-subgoal %d %s)" % (idx, g), "accessor"))
         elif pg[0] == "call":
-            sset = rng.choice(["(ss)", ss([None, atom("a")]), ss([None, var(2, "$Y"), atom("b")]), ss([None, None, None, None, None, None, None, None, None, atom("z")])])
+            sset = rng.choice(["(ss)", ss([None, atom("a")]), ss([None, var(2, "$Y"), atom("b")]), ss([None, None, None, None, None, None, None, None, None, atom("z")]),
+                               ss([atom("zero"), atom("a"), var(5, "$Y"), lst([atom("q")]), atom("d"), atom("e"), integer(6), var(1, "$X"), flt(2.5), atom("z")])])
             for idx in range(len(pg[1])): out.append(("(goal-ground-term %d %s %s)" % (idx, g, sset), "accessor"))
         else:
             out.append(("(op-len %s)" % g, "accessor")); out.append(("(goal-ground-term 0 %s (ss))" % g, "accessor"))
